@@ -129,6 +129,11 @@ func refusalGuards(p *Program, f *ssa.Function, depth int) ([]guardInfo, string)
 					continue
 				}
 			}
+			// neither does a helper that only compares wire pointers with nil (a session constructor
+			// that refuses an empty trie)
+			if !walksWire(g, 0) && len(ensuredBy(p, g, 0)) == 0 {
+				continue
+			}
 			trav = append(trav, c)
 		}
 	}
@@ -735,4 +740,67 @@ func edgeLeadsToAbort(b *ssa.BasicBlock, k int, abortOnly []bool) bool {
 		pred, cur = cur, next
 	}
 	return false
+}
+
+// walksWire: g, or a function of package trie it calls (to depth 2), indexes, slices or ranges over
+// a wire array, or hands wire data to another package. A function that does none of this reads no
+// trie content: calling it is not a traversal.
+func walksWire(g *ssa.Function, depth int) bool {
+	if g == nil || len(g.Blocks) == 0 {
+		return true
+	}
+	if depth > 2 {
+		return true
+	}
+	walks := false
+	instrsOf(g, func(_ *ssa.BasicBlock, in ssa.Instruction) {
+		if walks {
+			return
+		}
+		switch x := in.(type) {
+		case *ssa.IndexAddr:
+			walks = walks || wirePathOf(x.X) != ""
+		case *ssa.Index:
+			walks = walks || wirePathOf(x.X) != ""
+		case *ssa.Slice:
+			walks = walks || wirePathOf(x.X) != ""
+		case *ssa.Range:
+			walks = walks || wirePathOf(x.X) != ""
+		case *ssa.Lookup:
+			walks = walks || wirePathOf(x.X) != ""
+		case ssa.CallInstruction:
+			cm := x.Common()
+			h := calleeOf(x)
+			if h == nil {
+				if _, isBuiltin := cm.Value.(*ssa.Builtin); isBuiltin {
+					for _, a := range cm.Args {
+						if wirePathOf(a) != "" {
+							walks = true
+						}
+					}
+					return
+				}
+				walks = true // dynamic call
+				return
+			}
+			if trieScope(h) {
+				if call, ok := x.(*ssa.Call); ok {
+					if _, isPred := predicateNilTarget(call); isPred {
+						return
+					}
+				}
+				walks = walksWire(h, depth+1)
+				return
+			}
+			for _, a := range cm.Args {
+				if wirePathOf(a) != "" {
+					walks = true
+				}
+			}
+			if cm.IsInvoke() {
+				walks = true
+			}
+		}
+	})
+	return walks
 }
